@@ -256,8 +256,9 @@ def gen_method(i, rng, vkind, shape, nparams, vpos, nvkinds, ret, api, second=No
     return "\n".join(decl), "\n".join(call), combo
 
 
-def make_program(name, seed, nmethods, forced_pairs, flavours):
+def make_program(name, seed, nmethods, forced_pairs, flavours, with_move_only=True):
     rng = random.Random(seed)
+    nvkinds = NVKINDS if with_move_only else [k for k in NVKINDS if k != "mo"]
     decls, calls, combos = [], [], []
     for i in range(nmethods):
         if forced_pairs:
@@ -271,7 +272,7 @@ def make_program(name, seed, nmethods, forced_pairs, flavours):
             sp = rng.choice([p for p in range(nparams) if p != vpos])
             second = (sp, rng.choice(VKINDS), rng.choice(SHAPES))
         nnv = nparams - 1 - (1 if second else 0)
-        nvk = [rng.choice(NVKINDS) for _ in range(nnv)]
+        nvk = [rng.choice(nvkinds) for _ in range(nnv)]
         ret = rng.choice(RETKINDS)
         api = "macro" if rng.random() < 0.25 else "class"
         d, c, combo = gen_method(i, rng, vkind, shape, nparams, vpos, nvk, ret, api, second)
@@ -297,5 +298,7 @@ def programs(tier, seed):
         if tier == "quick" and n % 4 == 3:
             flav = ["clang-asan-ndebug"]
         forced = [pairs.pop() for _ in range(min(per, len(pairs)))]
-        out.append(make_program("c11-s%d-p%d" % (seed, n), seed * 1000 + n, per, forced, flav))
+        # move-only by-value parameters only in every other program: a library that cannot compile
+        # them must not hide what the other programs observe
+        out.append(make_program("c11-s%d-p%d" % (seed, n), seed * 1000 + n, per, forced, flav, with_move_only=(n % 2 == 0)))
     return out
